@@ -415,7 +415,7 @@ func TestVerifDriver(t *testing.T) {
 	bound := []uint32{0, 1, 1<<31 - 1, 1 << 31, 1<<31 + 1, 1<<32 - 1}
 	for k := 0; k < n; k++ {
 		curve := []string{"secp256k1", "p256", "ed25519"}[k%3]
-		seed := make([]byte, []int{0, 1, 16, 32, 64, 65, 100}[r.Intn(7)])
+		seed := make([]byte, []int{0, 1, 16, 32, 64, 65, 100, 127, 128, 129, 200, 1000}[(k/3+r.Intn(2))%12])
 		r.Read(seed)
 		m := emit("slip10.master", M{"curve": curve, "seed": vInts(seed)})
 		if m["ok"] != true {
